@@ -29,3 +29,21 @@ func (v *VerifPNGen) SkipState() (period, maxPeriod, next, nextToSkip protocol.P
 	}
 	return s.period, s.maxPeriod, s.next, s.nextToSkip, true
 }
+
+// VerifPPSetLargestAcked sets the largest acknowledged packet number of a packet number space
+// of a real sentPacketHandler (configuration for the C05 `protect` unit: the packer takes the
+// packet number and its length from sentPacketHandler.PeekPacketNumber).
+func VerifPPSetLargestAcked(h SentPacketHandler, encLevel protocol.EncryptionLevel, pn protocol.PacketNumber) {
+	h.(*sentPacketHandler).getPacketNumberSpace(encLevel).largestAcked = pn
+}
+
+// VerifPPSetNextPN restarts the packet number generator of a space at pn (the generators the
+// handler itself uses: skipping for application data, sequential otherwise).
+func VerifPPSetNextPN(h SentPacketHandler, encLevel protocol.EncryptionLevel, pn protocol.PacketNumber) {
+	sp := h.(*sentPacketHandler).getPacketNumberSpace(encLevel)
+	if encLevel == protocol.Encryption1RTT || encLevel == protocol.Encryption0RTT {
+		sp.pns = newSkippingPacketNumberGenerator(pn, protocol.SkipPacketInitialPeriod, protocol.SkipPacketMaxPeriod)
+	} else {
+		sp.pns = newSequentialPacketNumberGenerator(pn)
+	}
+}
